@@ -110,7 +110,7 @@ def r1_writers(rep, ctx):
             if isinstance(x, ast.Attribute) and isinstance(x.ctx, ast.Store) and x.attr in STATE and not (isinstance(x.value, ast.Name) and fn.params and x.value.id == fn.params[0] and fn.cls == M):
                 n += 1
                 rep.bad("C17.R1", "%s:%s:foreign-store" % (fn.qual.split(".", 2)[-1], x.attr), "%s of the manager is stored from outside the manager" % x.attr, node=x, fn=fn)
-    rep.floor("C17.R1", "state writes", n, 6)
+    rep.floor("C17.R1", "state writes", n, 3)
 
 
 def _calls(fn, name):
@@ -134,7 +134,7 @@ def r2_check_before_write(rep, ctx):
                       "no raise/assert is reachable after the write to %s" % what,
                       "a rejected call can leave the manager changed: after the write to %s the raise/assert at line(s) %s is reachable" % (what, lines),
                       node=node, fn=fn, facts={"entry": fn.qual, "offending_exit_lines": lines})
-    rep.floor("C17.R2", "writes in manager methods", total, 6)
+    rep.floor("C17.R2", "writes in manager methods", total, 3)
     # uniqueness
     fn = m.method(M, "AddUnitSystem")
     cfg = CFG(fn.node)
